@@ -184,9 +184,10 @@ class NodesDriver:
         return {"prop": prop, "key": key, "detail": detail}
 
 
-def tlc_nodes(label, nodes, maxdecl, maxq, cfg="MC_ConvNodes.cfg", timeout=3000, latedefs=0, redecl=0):
+def tlc_nodes(label, nodes, maxdecl, maxq, cfg="MC_ConvNodes.cfg", timeout=3000, latedefs=0, redecl=0, chain=0):
     return run_tlc("MC_ConvNodes", cfg=cfg, wd=workdir("tlc_conv_" + label),
-                   env={"VERIF_NODES": nodes, "VERIF_MAXDECL": maxdecl, "VERIF_MAXQ": maxq, "VERIF_LATEDEFS": latedefs, "VERIF_REDECL": redecl},
+                   env={"VERIF_NODES": nodes, "VERIF_MAXDECL": maxdecl, "VERIF_MAXQ": maxq, "VERIF_LATEDEFS": latedefs, "VERIF_REDECL": redecl,
+                        "VERIF_CHAIN": chain},
                    workers=4 if nodes == 3 else None, timeout=timeout)
 
 
@@ -232,6 +233,18 @@ def run_c08(tier, seed):
     v.add_violations(rep["mm"])
     v.exhaustive = True
     v.extra["replay"] = {"histories": len(hists), "executed": rep["n"], "ops": {k[3:]: n for k, n in rep["stats"].items() if k.startswith("op:")}}
+    # a chain of four units, questions between units two or three links apart: the declaration that makes a failed
+    # conversion possible is between two OTHER units
+    ch = tlc_nodes("nodes_chain", 4, 3, 2, chain=1)
+    require_ok(ch, "MC_ConvNodes[chain]")
+    v.add_tlc(ch, "MC_ConvNodes chain of 4 units, questions between distant units only")
+    chh = ch.exports.get("H", [])
+    repc = replay_histories(chh, NodesDriver(nodes=4, props=("C08",)), split_depth=2, label="nodes_chain")
+    v.impl += repc["n"]
+    v.evaluations += repc["n"]
+    v.nontrivial += repc["stats"].get("nontrivial", 0)
+    v.add_violations(repc["mm"])
+    v.extra["replay_chain"] = {"histories": len(chh), "executed": repc["n"]}
     # corrected definitions: the pair (n3, n2) is declared twice with different ratios, the later one is in force
     red = tlc_nodes("nodes_redecl", 3, 3 if tier == "quick" else 4, 2 if tier == "quick" else 3, redecl=1)
     require_ok(red, "MC_ConvNodes[re-declarations]")
